@@ -20,6 +20,7 @@ type fpShape struct {
 	name      string
 	method    string
 	generates bool
+	gen2      bool // a second generates entry (out2.txt), written by the same command
 	prompt    bool
 	collide   bool // a second task whose name normalises to the same state file, same sources
 	dep       bool // build depends on another fingerprinted task
@@ -48,6 +49,9 @@ func fpBody(tag string, sh fpShape) string {
 	}
 	if sh.generates {
 		lines = append(lines, "      - 'cat {{.ROOT_DIR}}/src/*.txt > {{.ROOT_DIR}}/out.txt'")
+		if sh.gen2 {
+			lines = append(lines, "      - 'cat {{.ROOT_DIR}}/src/*.txt > {{.ROOT_DIR}}/out2.txt'")
+		}
 	} else {
 		lines = append(lines, "      - 'true'")
 	}
@@ -60,7 +64,9 @@ func fpBody(tag string, sh fpShape) string {
 func (sh fpShape) files() map[string]string {
 	task := func(name, tag string) string {
 		s := "  '" + name + "':\n    method: " + sh.method + "\n    sources: ['{{.ROOT_DIR}}/src/*.txt']\n"
-		if sh.generates {
+		if sh.gen2 {
+			s += "    generates: ['{{.ROOT_DIR}}/out.txt', '{{.ROOT_DIR}}/out2.txt']\n"
+		} else if sh.generates {
 			s += "    generates: ['{{.ROOT_DIR}}/out.txt']\n"
 		}
 		if sh.prompt {
@@ -242,6 +248,13 @@ func fpEvents(prop string, sh fpShape, tier string) []hEvent {
 				return nil
 			}})
 	}
+	if sh.gen2 {
+		evs = append(evs, hEvent{Name: "rm-out2", Enabled: func(s snapshot, _ hModel) bool { _, ok := s["out2.txt"]; return ok },
+			Apply: func(dir string, m hModel, _ []string) []vlab.Violation {
+				os.Remove(filepath.Join(dir, "out2.txt"))
+				return nil
+			}})
+	}
 	for _, inv := range fpInvocations(sh) {
 		inv := inv
 		if prop == "C04" && tier != "thorough" && (inv.name == "list" || inv.name == "list-all" || inv.name == "summary" || inv.name == "list-json-nostatus" || inv.name == "dry-force" || inv.name == "run-fail1" || inv.name == "run-kill1") {
@@ -319,6 +332,10 @@ func fpEvents(prop string, sh fpShape, tier string) []hEvent {
 				if sh.generates {
 					_, err := os.Stat(filepath.Join(dir, "out.txt"))
 					genOK = err == nil
+					if sh.gen2 {
+						_, err2 := os.Stat(filepath.Join(dir, "out2.txt"))
+						genOK = genOK && err2 == nil
+					}
 				}
 				if !ok {
 					prev = "none"
@@ -442,7 +459,7 @@ func fpUnits(prop, tier string) []*Unit {
 		if prop == "C12" {
 			shapes = append(shapes, fpShape{name: "dir-attr", method: m, dirAttr: true}, fpShape{name: "with-broken-task", method: m, broken: true})
 		} else {
-			shapes = append(shapes, fpShape{name: "dep", method: m, dep: true})
+			shapes = append(shapes, fpShape{name: "dep", method: m, dep: true}, fpShape{name: "two-generates", method: m, generates: true, gen2: true})
 			other := "timestamp"
 			if m == "timestamp" {
 				other = "none"
